@@ -82,8 +82,12 @@ Holds(c, T, e) ==
          IsEnd(e) =>
             \A i \in DOMAIN fw.rejected :
                LET r == fw.rejected[i] IN
-               (r.want >= 0 /\ r.want < Len(fw.job) /\ r.at < fw.ntx) =>
-                  \E j \in (r.at + 1)..(r.at + 4) : j <= fw.ntx /\ fw.ns[j] = r.want
+               \* "shortly": among the next four NUMBERED transmissions -- un-numbered priority commands (the restore
+               \* commands of a resume() that falls between the rejection and its service) do not count
+               (r.want >= 0 /\ r.want < Len(fw.job) /\ \E j \in (r.at + 1)..fw.ntx : fw.ns[j] # -99) =>
+                  \E j \in (r.at + 1)..fw.ntx :
+                     /\ fw.ns[j] = r.want
+                     /\ Cardinality({q \in (r.at + 1)..j : fw.ns[q] # -99}) <= 4
     \* the firmware ends up with every executable line of the job, once, in order
     [] c = "C15_Complete" -> IsEnd(e) => (Joined(e) /\ fw.accepted = fw.job)
     [] c = "C15_NoDup" -> IsEnd(e) => \A i \in DOMAIN fw.accepted : i <= Len(fw.job) /\ fw.accepted[i] = fw.job[i]
